@@ -271,7 +271,7 @@ pub fn finish_fault(meta: RunMeta, mut acc: Acc, budget: &Budget, re: &dyn Fn(&V
     let prop = meta.prop;
     let code = finish(meta, acc, budget, re);
     // evaluations = faulted buffers (not base files)
-    let path = format!("{}/evidence/{}.json", VERIF_DIR, prop);
+    let path = format!("{}/evidence/{}.json", verif_dir(), prop);
     if let Ok(txt) = std::fs::read_to_string(&path) {
         if let Ok(mut v) = serde_json::from_str::<Value>(&txt) {
             v["coverage"]["evaluations"] = json!(evals);
